@@ -1,7 +1,9 @@
 package props
 
 import (
+	"encoding/json"
 	"os"
+	"os/exec"
 	"path/filepath"
 	"strconv"
 	"strings"
@@ -199,27 +201,53 @@ func TestFuzzCrasherToReplay(t *testing.T) {
 	if !found {
 		t.Fatalf("INFRA: no string input in %s", file)
 	}
-	const why = "a fuzzing worker process died while executing this input"
+	const why = "a fuzzing worker process died while executing this input, and a fresh process running it alone dies or hangs too"
+	var prop string
+	var payload interface{}
 	switch target {
 	case "FuzzC08NoCrash":
 		c := &CrashCase{Prop: "C08", Kind: "fuzz", Script: input, Msg: why}
 		if !utf8.ValidString(input) {
 			c.Script, c.Hex = hexOf(input), true
 		}
-		violation(t, "C08", c, why)
+		prop, payload = "C08", c
 	case "FuzzC03OptDiff":
-		violation(t, "C03", &DiffCase{Prop: "C03", Kind: "diff", Script: input, Msg: why}, why)
+		prop, payload = "C03", &DiffCase{Prop: "C03", Kind: "diff", Script: input, Msg: why}
 	case "FuzzC18Verify":
-		violation(t, "C18", &VerifyCase{Prop: "C18", Kind: "soup", Script: input, Msg: why}, why)
+		prop, payload = "C18", &VerifyCase{Prop: "C18", Kind: "soup", Script: input, Msg: why}
 	case "FuzzC14Lex":
 		lc := &LexCase{Prop: "C14", Kind: "term", Src: input, Msg: why}
 		if !utf8.ValidString(input) {
 			lc.Src, lc.Hex = hexOf(input), true
 		}
-		violation(t, "C14", lc, why)
+		prop, payload = "C14", lc
 	default:
 		t.Fatalf("INFRA: unknown fuzz target %q", target)
 	}
+	// The fuzzer kills a worker that does not answer in time - on a busy
+	// machine an input that needs a second can look like a dead worker. A time
+	// budget is never a verdict: the input is run once more, alone, in a fresh
+	// process with ten minutes to spare, through the oracle of the replay. Only
+	// if that process dies, hangs or reports a violation is the input kept.
+	tmp, err := os.CreateTemp("", "fuzz-candidate-*.json")
+	if err != nil {
+		t.Fatalf("INFRA: %v", err)
+	}
+	defer os.Remove(tmp.Name())
+	enc, _ := json.Marshal(payload)
+	_, _ = tmp.Write(enc)
+	tmp.Close()
+	cmd := exec.Command(os.Args[0], "-test.run", "^TestReplay$", "-test.timeout", "600s")
+	cmd.Env = append(os.Environ(), "VERIF_REPLAY="+tmp.Name(), "VERIF_CRASHER=", "VERIF_OUT=")
+	out, cerr := cmd.CombinedOutput()
+	if cerr == nil {
+		if o := os.Getenv("VERIF_OUT"); o != "" {
+			_ = os.WriteFile(filepath.Join(o, prop+".fuzz-worker-death-not-reproduced."+filepath.Base(file)), []byte(input), 0o644)
+		}
+		t.Logf("the input runs clean in a process of its own: not a finding (%s)", clip(string(out), 200))
+		return
+	}
+	violation(t, prop, payload, why)
 }
 
 // resourceHungry: the property excludes scripts whose single operations need
